@@ -168,6 +168,7 @@ let run mode line =
           if is_reg (Hashtbl.find nodes id).k then begin
             if spec then begin
               sreg := gm_ndel (addr id) !sreg;
+              sheap := gm_ndel (addr id) !sheap;          (* an explicitly deleted object is gone *)
               sorder := List.filter (fun a -> a <> addr id) !sorder
             end else do_step (EDel (addr id))
           end
